@@ -156,7 +156,7 @@ def run_strategy(opt, files, points=None, seed=0, batch=50, want_nll=True, lazy_
             full = list(dg.chains_idx)
             try:
                 subs = []
-                for sub in ([0], full[1:]):
+                for sub in ([0], full[1:], list(reversed(full[1:])), [full[-1], full[0]]):
                     amp.set_used_chains(sub)
                     subs.append(np.asarray(amp(d0)))
                 out["subset"] = subs
